@@ -391,7 +391,7 @@ func TestCheck(t *testing.T) {
 		reps = 1
 	}
 	r := &repeater{Run: r0, reps: reps}
-	r.Meta("rule", "(A) fault-scripted peers: tcp/unix servers that close, reset or fall silent before the request, mid request header, mid request body, after the request, mid response header and mid response body, or answer garbage, a 64 MiB declared length, an error-flagged frame or another call's index; websocket servers that refuse or stall the handshake, close, fall silent, send partial frames or garbage; udp peers that are silent, absent (ICMP refusal) or send garbage; http servers (for the net/http and, in processes of their own, the fasthttp client) that close or stall before/inside the response; a mock service that blocks. Each fault x ending mode {no time-out, client time-out 150 ms, context deadline 150 ms, context cancellation at 40 ms, Abort at 40 ms}. Oracle: the call returns (a call still pending 8 s after it had to end is a violation: connection loss must end it even without a time-out), it returns an error, afterwards the peer turns healthy and the same client must succeed within three attempts; after each batch Abort is called and the client-side goroutines (stack frames inside the transports' conn/Transport and core.Client) and the pending-entry count read through the verif hook must be zero. (B) forced schedules through the verif yield points {before-register, registered, enqueued, before-clean, after-clean} of the tcp/unix/ws/udp connections: a call is held at a point while Abort, connection loss or cancellation happens, then released; it must return and leave no pending entry. Also: 60 (600 thorough) calls per transport whose context is already cancelled or cancelled at once (pending entries are read before Abort sweeps them); connections whose writes fail while the read side stays quiet (injected through Transport.OnConnect) x ending modes; 1/2/4/9 calls pending on a silent service ended by Abort and by cancelling each, on every transport. (C) slow and never-returning service functions under the service-side ExecuteTimeout plugin and under client time-outs, over every transport. (D) reverse calls to absent, slow and vanishing providers with time-out, cancellation and no time-out. distinct_nontrivial = distinct (part, transport, fault, mode) cells")
+	r.Meta("rule", "(A) fault-scripted peers: tcp/unix servers that close, reset or fall silent before the request, mid request header, mid request body, after the request, mid response header and mid response body, or answer garbage, a 64 MiB declared length, an error-flagged frame or another call's index; websocket servers that refuse or stall the handshake, close, fall silent, send partial frames or garbage; udp peers that are silent, absent (ICMP refusal) or send garbage; http servers (for the net/http and, in processes of their own, the fasthttp client) that close or stall before/inside the response; a mock service that blocks. Each fault x ending mode {no time-out, client time-out 150 ms, context deadline 150 ms, context cancellation at 40 ms, Abort at 40 ms}. Oracle: the call returns (a call still pending 8 s after it had to end is a violation: connection loss must end it even without a time-out), it returns an error, afterwards the peer turns healthy and the same client must succeed within three attempts; after each batch Abort is called and the client-side goroutines (stack frames inside the transports' conn/Transport and core.Client) and the pending-entry count read through the verif hook must be zero. (B) forced schedules through the verif yield points {before-register, registered, enqueued, before-clean, after-clean} of the tcp/unix/ws/udp connections: a call is held at a point while Abort, connection loss or cancellation happens, then released; it must return and leave no pending entry. Also: 60 (600 thorough) calls per transport whose context is already cancelled or cancelled at once (pending entries are read before Abort sweeps them); connections whose writes fail while the read side stays quiet (injected through Transport.OnConnect) x ending modes; 1/2/4/9 calls pending on a silent service ended by Abort and by cancelling each, on every transport. (C) slow and never-returning service functions under the service-side ExecuteTimeout plugin and under client time-outs, over every transport. (D) reverse calls to absent, slow and vanishing providers with time-out, cancellation and no time-out. distinct_nontrivial = distinct (part, transport, fault, mode) cells Added: calls whose context is already cancelled (pending entries read before Abort sweeps them), connections whose writes fail while the read side stays quiet, several calls pending at Abort on every transport. Round 3 additions: ending modes with a long time-out in force (Abort, cancellation, configured time-out under a later context deadline) judged against a 6 s bound; oversized udp requests leave no pending entry.")
 	r.Meta("assumptions", []string{"time-outs of 150 ms; a call counts as hung when still pending 8 s after the event that must end it (generous wall-clock watchdog; lateness below it is recorded, not judged)", "one fault per connection"})
 	if peer.FastHTTPClient {
 		for _, kind := range []string{"http", "fasthttp"} {
